@@ -1,6 +1,8 @@
 import XsVerif.Driver.Util
 import XsVerif.Model.Converters
 import XsVerif.Model.ContentOrder
+import XsVerif.Model.DataElement
+import XsVerif.Model.DefaultConv
 open Lean XsVerif.Driver XsVerif.Conv
 
 namespace XsVerif.Driver.C05
@@ -63,11 +65,13 @@ def jOfJson : Nat → Json → Except String J
 
 def parseFacts (j : Json) : Except String Facts := do
   let ch ← (← getArr j "children").toList.mapM fun c => do
-    pure ({ name := ← getStr c "name", ty := ← getNat c "ty", single := ← getBool c "single" } : Child)
+    pure ({ name := ← getStr c "name", ty := ← getNat c "ty", single := ← getBool c "single",
+            isList := (getBool c "isList").toOption.getD false } : Child)
   pure { hasGroup := ← getBool j "hasGroup", simple := ← getBool j "simple", mixed := ← getBool j "mixed",
          emptyContent := ← getBool j "emptyContent", complex := ← getBool j "complex",
          singleGroup := ← getBool j "singleGroup", isList := ← getBool j "isList",
-         anyType := ← getBool j "anyType", attrs := ← getStrList j "attrs", children := ch }
+         anyType := ← getBool j "anyType", attrs := ← getStrList j "attrs", children := ch,
+         isQName := (getBool j "isQName").toOption.getD false }
 
 def parseHd (fuel : Nat) (j : Json) : Except String Hd := do
   let text ← match j.getObjVal? "text" with
@@ -128,7 +132,7 @@ def parseItemsJ (j : Json) : Except String (List (Item J)) := do
 
 def errName : Err → String
   | .typeErr => "caught" | .valueErr => "caught" | .unmatchedTag => "caught" | .noChild => "nochild"
-  | .leak => "leak" | .noType => "notype" | .fuel => "fuel"
+  | .leak => "leak" | .noType => "notype" | .fuel => "fuel" | .rawContent => "raw"
 
 def lookupD (t : List (String × String)) (k : String) : String :=
   match t.find? (·.1 == k) with | some p => p.2 | none => k
@@ -142,11 +146,27 @@ def parseMapper (j : Json) : Except String Mapper := do
   let attrs ← strPairs (← j.getObjVal? "attrs")
   pure { mp := lookupD (tags ++ attrs), um := rlookupD tags, umA := rlookupD attrs }
 
+def optStr (j : Json) (k : String) (dflt : Option String) : Option String :=
+  match j.getObjVal? k with
+  | .ok .null => none
+  | .ok (.str s) => some s
+  | _ => dflt
+
+/-- converter keyword arguments as the harness passed them to the real class -/
+def parseOpts (j : Json) (useNs : Bool) : Dflt.Opts :=
+  let o := (j.getObjVal? "opts").toOption.getD (Json.mkObj [])
+  { textKey := optStr o "text_key" (some "$"), attrPrefix := optStr o "attr_prefix" (some "@"),
+    cdataPrefix := optStr o "cdata_prefix" none,
+    forceDict := (getBool o "force_dict").toOption.getD false,
+    forceList := (getBool o "force_list").toOption.getD false, useNs }
+
 def parseConv (j : Json) : Except String Conv := do
   let m ← parseMapper (← j.getObjVal? "mapper")
   let useNs ← getBool j "useNs"
   match ← getStr j "conv" with
   | "jsonml" => pure (JsonML.conv m useNs)
+  | "dataelement" => pure (DE.conv m)
+  | "default" => pure (Dflt.conv (parseOpts j useNs) m)
   | c => throw s!"unknown converter {c}"
 
 def resJson (r : Except Err Node) : Json :=
